@@ -118,14 +118,15 @@ func init() {
 		"graphs":     "every workflow built from: optional ParamSource S (3 values) or FromStr feeding A; A (no in-ports); B <- A; C <- A | B | A+B (fan-in); optional D with in-ports a, b <- A|B|C each (a possibly left unconnected), with or without an out-port (a process without out-ports drives the workflow); optional file->parameter converter F <- A|B and E <- F; dangling out-ports everywhere they arise",
 		"run mode":   "Run, or RunTo one symbolic target among the command processes",
 		"streams":    "1 or 3 items per stream with SCIPIPE_BUFSIZE=1 (streams longer than buffer + 1), fan-in up to 6 items",
-		"scheduling": "cooperative run-until-blocked schedule, every select with several ready cases is a symbolic choice; thorough: plus up to 2 solver-chosen pre-emptions at channel operations",
+		"scheduling": "cooperative run-until-blocked schedule, every select with several ready cases is a symbolic choice; thorough: also with buffer size 2, and the sub-family without D/E/F with one solver-chosen deviation from the default schedule",
 	}
 	gq := func(ma []string, mr []string) []H {
 		return []H{{Pkg: "components", Fn: "VxH16graph", Params: p("bufsize", 1, "preempt", 0), MustReach: mr, MustAssert: ma}}
 	}
 	gt := func(ma []string, mr []string) []H {
 		return []H{{Pkg: "components", Fn: "VxH16graph", Params: p("bufsize", 1, "preempt", 0), MustReach: mr, MustAssert: ma},
-			{Pkg: "components", Fn: "VxH16graph", Params: p("bufsize", 2, "preempt", 1), MustReach: mr, MustAssert: ma}}
+			{Pkg: "components", Fn: "VxH16graph", Params: p("bufsize", 2, "preempt", 0), MustReach: mr, MustAssert: ma},
+			{Pkg: "components", Fn: "VxH16graph", Params: p("bufsize", 1, "preempt", 1, "small", 1), MustReach: []string{"ran"}, MustAssert: []string{"C04.every-input-set-once", "C05.run-returns"}}}
 	}
 	out := []string{"unequal stream lengths on the ports of one process (surplus dropped by design)", "cyclic graphs", "graphs with more than 7 processes", "streaming outputs (C17)", "whole-graph deadlock freedom beyond the explored schedules"}
 	as := append(append([]string{}, envAssumptions...), commonAssumptions[0], commonAssumptions[3])
@@ -263,4 +264,31 @@ func init() {
 		TCQuick: [2]int{2, 3}, TCThorough: [2]int{3, 3},
 		Bounds: tcBounds, Outside: []string{"more than 3 concurrent tasks, more than 3 slots in the bounded model checking", "fairness of the Go scheduler"}, Assumptions: as,
 		Stubs: []string{"slot channel and slot mutex in trace mode (operations recorded), command model marks B/E"}})
+}
+
+func init() {
+	var q, th []H
+	for sc := 0; sc <= 5; sc++ {
+		q = append(q, H{Pkg: "components", Fn: "VxH12", Params: p("scenario", sc, "preempt", 0), MustReach: []string{"analysed"}, MustAssert: []string{"C12.scenario-runs", "C12.conflicting-pair-ordered"}})
+		th = append(th, H{Pkg: "components", Fn: "VxH12", Params: p("scenario", sc, "preempt", 1), MustReach: []string{"analysed"}, MustAssert: []string{"C12.scenario-runs", "C12.conflicting-pair-ordered"}})
+	}
+	q = append(q, H{Pkg: "scipipe", Fn: "VxSelfRace", Params: p("kind", 1), MustReach: []string{"done"}, MustAssert: []string{"selftest.race-count"}})
+	q = append(q, H{Pkg: "scipipe", Fn: "VxSelfRace", Params: p("kind", 2), MustReach: []string{"done"}, MustAssert: []string{"selftest.race-count"}})
+	q = append(q, H{Pkg: "scipipe", Fn: "VxSelfRace", Params: p("kind", 3), MustReach: []string{"done"}, MustAssert: []string{"selftest.race-count"}})
+	th = append(th, q[6:]...)
+	regCheck(&Check{ID: "C12", Quick: q, Thorough: th,
+		Bounds: map[string]string{
+			"scenarios": "six real workflows run by the real Workflow.Run: fan-out to two processes + fan-in; fan-out to MapToTags and a sibling consumer; streaming pair; multi-core tasks of two processes; FileSplitter output fanned out to two consumers; two tagged inputs merged while sibling components read the tags",
+			"trace":     "every load / store through a pointer, every map read / write and every JSON marshal traversal, per goroutine, plus every channel send / receive / close, mutex lock / unlock, go statement, WaitGroup event (1 100 - 3 900 events per run)",
+			"query":     "for every pair of conflicting accesses (same location, different goroutines, one a write, at least one in library code; 3 instances per pair of code sites): is there a total order of the synchronisation events consistent with program order, channel matching and capacity, recorded critical-section order and goroutine creation in which the two accesses are adjacent",
+			"schedule":  "quick: the default schedule of each scenario; thorough: plus every schedule with one deviation",
+		},
+		Outside: []string{
+			"re-orderings that change a goroutine's control flow (the analysis keeps the recorded control flow of each goroutine; critical sections keep their recorded order)",
+			"races on locations that are only reached in other schedules or other workflows",
+			"stores that leave a location unchanged are not counted as writes (go/ssa emits such stores for `return x` of a named result)",
+			"accesses inside modelled library calls other than json.Marshal (e.g. the standard logger)",
+		},
+		Assumptions: append(append([]string{}, envAssumptions...), commonAssumptions[0], commonAssumptions[3], "Go memory model: a send happens before the corresponding receive completes, the k-th receive on a channel of capacity C happens before the (k+C)-th send completes, unlock happens before the next lock, the go statement happens before the goroutine starts"),
+		Stubs:       []string{"file system, command model; goroutines / channels / mutexes are interpreter objects whose operations are logged"}})
 }
